@@ -1,6 +1,7 @@
 import NetVerif.Driver.Util
 import NetVerif.Model.WriteSched
 import NetVerif.Model.WriteSched7540
+import NetVerif.Model.RFC9218Priority
 /-! Line-protocol driver for the HTTP/2 write-scheduler models (C12, C13).
 
 ops:  reset <rr|p9218|rand> <maxFrame> <connWin> <initWin> | reset p7540 <maxFrame> <connWin> <initWin> <maxClosed> <maxIdle> <throttle>
@@ -120,11 +121,12 @@ def step (st : St) (line : String) : St × String :=
     | some n => doOp st (.maxframe n)
     | none => (st, "bad-op")
   | ["pparse", b, c] =>
-    -- Go-side oracle only (parseRFC9218Priority post-condition); nothing to model
-    match parseBytes b, parseBool c, st.s, st.p with
-    | some _, some _, some _, _ => (st, "ok")
-    | some _, some _, none, some _ => (st, "ok")
-    | _, _, _, _ => (st, "bad-op")
+    -- parseRFC9218Priority(string, canUseDefault) = ok <urgency> <incremental> <ok>
+    match parseBytes b, parseBool c, st.s.isSome || st.p.isSome with
+    | some bs, some cud, true =>
+      let r := NetVerif.Model.RFC9218Priority.parsePriority bs cud
+      (st, s!"ok {r.1.1} {r.1.2} {b01 r.2}")
+    | _, _, _ => (st, "bad-op")
   | ["dump"] =>
     match st.s, st.p with
     | some s, _ => (st, "ok " ++ dumpSched s)
